@@ -32,6 +32,17 @@ def cases(seed, tier):
             c2["callbacks"] = {"cbX": {"raise_at": {"event": sorted({rng.randrange(0, 6), rng.randrange(0, 10)})}}}
             c2["script"].insert(0, {"do": "subscribe", "cb": "cbX", "name": "all", "token": "x0"})
             yield c2
+        if i % 4 == 2 and c["re"].get("record_interruptions"):
+            # suspensions requested through RE.request_suspend() directly, every time with the same callable object:
+            # each of them is a suspension of its own and gets its own record
+            c3 = copy.deepcopy(c)
+            c3["variant"] = f"{c.get('variant')}-direct-request-suspend"
+            main = next(s_ for s_ in c3["script"] if s_.get("main"))
+            steps = sorted(rng.sample(range(8, 120), 3))
+            same_text = rng.choice([None, "beam lost"])  # (sometimes all with the same justification text too)
+            main["inject"] = [{"id": f"rs{k}", "at": {"step": st}, "do": "rsuspend", "args": {"just": same_text or f"direct #{k}", "after": rng.choice([0.05, 0.3])}} for k, st in enumerate(steps)]
+            main["decisions"] = [{"do": "resume"}] * 3
+            yield c3
 
 
 def check(res):
